@@ -251,9 +251,26 @@ def check(ctx) -> None:
     loops = [n for n in own_nodes(adds.node) if isinstance(n, ast.For)]
     skip = [n for n in own_nodes(adds.node) if isinstance(n, (ast.Continue, ast.Break))]
     ok4c = len(loops) == 1 and not skip
+    # the loop visits the caller's entries themselves: every item once, in order
+    if len(loops) == 1:
+        it = loops[0].iter
+        if isinstance(it, ast.Call) and getattr(it.func, "id", "") in ("enumerate", "list", "tuple", "iter") and it.args:
+            it = it.args[0]
+        direct = isinstance(it, ast.Name) and it.id == adds.params[1] and not any(isinstance(n, ast.Assign) and any(isinstance(t, ast.Name) and t.id == adds.params[1] for t in n.targets) for n in own_nodes(adds.node))
+        ctx.instance("C19-U4", "the bulk-add loop iterates the entries parameter itself (%s)" % unparse(loops[0].iter)[:40], adds.loc(loops[0]), ok=direct)
+        if not direct:
+            ctx.finding("C19-U4", "RuleImputeManager.add_entries:loop-source", adds.loc(loops[0]), "the bulk add does not visit every given entry once and in order (it iterates %s): items are merged or dropped before add_entry sees them, so the batch differs from the same adds done one by one and rejected items go unreported" % unparse(loops[0].iter)[:50])
     ctx.instance("C19-U4", "loop body cannot skip an entry silently (no continue/break), rejected list is returned", adds.loc(), ok=ok4b and ok4c)
     if not (ok4b and ok4c):
         ctx.finding("C19-U4", "RuleImputeManager.add_entries:loop", adds.loc(), "the bulk-add loop can skip an entry silently or does not return the rejected entries")
+    # ---------------------------------------------------------------- U6
+    # the composition recorded by add_entry is decompose(smiles): its element keys, atom set and
+    # charge follow the rules of C07 (shared: E1, E2, E3)
+    from . import c07
+
+    c07.rule_e1(ctx, "C19-U6")
+    c07.rule_e2(ctx, "C19-U6")
+    c07.rule_e3(ctx, "C19-U6")
     # ---------------------------------------------------------------- U5
     for name, rel, db in c08.databases(ctx):
         seen_f: Dict[str, int] = {}
